@@ -74,6 +74,9 @@ struct Inner {
     /// candidate objects (touched by >= 2 threads in some execution so far); None = every object
     shared: Option<BTreeSet<u64>>,
     grew: bool,
+    /// the prefix stopped matching after the candidate set had grown in this process; the rest
+    /// of this execution follows the default choices (a valid schedule, not the intended one)
+    diverged: bool,
 }
 
 pub struct Sched {
@@ -112,6 +115,7 @@ pub fn sched() -> &'static Sched {
                 prune: true,
                 shared: Some(BTreeSet::new()),
                 grew: false,
+                diverged: false,
             }),
             cv: Condvar::new(),
         }));
@@ -174,13 +178,23 @@ impl Inner {
         let idx = if pos < self.prefix.len() {
             let i = self.prefix[pos];
             if i >= order.len() {
-                self.abort = Some(format!(
-                    "MACHINERY: replay divergence at choice point {pos}: prefix wants alternative {i} but only {} threads are enabled",
-                    order.len()
-                ));
-                return Some(order[0]);
+                if GREW_IN_THIS_PROCESS.load(std::sync::atomic::Ordering::Relaxed) {
+                    // prefixes recorded before the candidate set grew need not replay afterwards:
+                    // finish this execution on the default choices; the caller searches the plan
+                    // again with the larger set
+                    self.diverged = true;
+                    self.prefix.truncate(pos);
+                    0
+                } else {
+                    self.abort = Some(format!(
+                        "MACHINERY: replay divergence at choice point {pos}: prefix wants alternative {i} but only {} threads are enabled",
+                        order.len()
+                    ));
+                    return Some(order[0]);
+                }
+            } else {
+                i
             }
-            i
         } else {
             0
         };
@@ -197,6 +211,7 @@ impl Inner {
             if let Some(s) = self.shared.as_mut() {
                 if s.insert(o) {
                     self.grew = true;
+                    GREW_IN_THIS_PROCESS.store(true, std::sync::atomic::Ordering::Relaxed);
                 }
             }
         }
@@ -427,6 +442,7 @@ pub struct ExecResult {
     pub abort: Option<String>,
     pub panics: Vec<(usize, String)>,
     pub grew: bool,
+    pub diverged: bool,
 }
 
 /// Runs `bodies` (one closure per controlled thread) under the schedule given by `prefix`
@@ -457,6 +473,7 @@ pub fn run_execution(prefix: &[usize], bodies: Vec<Box<dyn FnOnce() + Send>>) ->
         g.oplog.clear();
         g.open_gates.clear();
         g.grew = false;
+        g.diverged = false;
     }
     let panics: std::sync::Arc<Mutex<Vec<(usize, String)>>> = Default::default();
     let mut handles = vec![];
@@ -545,6 +562,7 @@ pub fn run_execution(prefix: &[usize], bodies: Vec<Box<dyn FnOnce() + Send>>) ->
         abort: g.abort.clone(),
         panics: panics.lock().unwrap().clone(),
         grew: g.grew,
+        diverged: g.diverged,
     };
     r
 }
@@ -678,8 +696,11 @@ pub fn explore_subtree(run: &mut RunFn, root: Vec<usize>, bound: usize, cap: u64
                 }
             }
         }
-        if x.grew {
-            GREW_IN_THIS_PROCESS.store(true, std::sync::atomic::Ordering::Relaxed);
+        if x.diverged {
+            // a complete, valid execution (its verdict above stands), but not the schedule that
+            // was asked for: it has no place in the systematic search
+            st.diverged_after_growth += 1;
+            continue;
         }
         if let Some(a) = &x.abort {
             if a.starts_with("MACHINERY") {
